@@ -191,7 +191,7 @@ theorem sinv_prot2 {c : Cfg} {s s' : St} {t : Tid} {ev : Ev} {op : Op} {a lvl : 
       · exact decideOp_A c op a lvl cl
 
 /-- a CAS that fails: back to `traverse` -/
-theorem sinv_cas_fail {c : Cfg} {s s' : St} {t : Tid} {ev : Ev} {op : Op} {a lvl : Nat} (h : SInv c s)
+theorem sinv_cas_fail {c : Cfg} {s s' : St} {t : Tid} {op : Op} {a lvl : Nat} (h : SInv c s)
     (hpo : posOf (s.pc t) = some (op, a, lvl)) (hs' : s' = { s with pc := upd s.pc t (.trav op a lvl) }) :
     SInv c s' := by
   subst hs'; exact sinv_to_trav h hpo
